@@ -134,8 +134,10 @@ class VcsCannedStream(Stream):
             "spelt absolute, relative, './rel', with trailing slash; is_ignored and is_submodule for query paths spelt as the walk "
             "does, as a string join, absolute, relative to the process, with './' '//' noise, with '..', the root itself, outside the "
             "root: real class vs model (driver op vcsq, every query) vs generator ground truth (queries that denote a normal path "
-            "below the root, not below a listed directory); Hg/Jujutsu/Pijul only ever on canned outputs; non-trivial = some query "
-            "ignored and some not")
+            "below the root, not below a listed directory); Hg/Jujutsu/Pijul only ever on canned outputs; the emulated `git config "
+            "--get-regexp PATTERN` answers with the keys PATTERN finds among submodule.<name>.path / .url / .branch, the names being m0.., the "
+            "path itself, or one of 22 with dots, blanks, slashes, quotes, `.path` / `.url` endings (the model is fed the answer to the pattern "
+            "`\\.path$`); non-trivial = some query ignored and some not")
 
     def __init__(self):
         self._facts = {}
@@ -558,7 +560,10 @@ class VcsGitStream(Stream):
             "--get-regexp \\.path$` are captured from the real commands (run in the root) and fed to the model; for every path "
             "on disk model = real VCSStrategyGit; the files a pruned walk reaches under the class's verdicts = those reached under "
             "`git check-ignore`'s verdicts (modulo the known finding c03-git-ignored-in-untracked-dir); the model walk on the "
-            "captured outputs = Project.all_files; non-trivial = something ignored and something reached")
+            "captured outputs = Project.all_files; a second family of cases adds 0-3 further submodules and reaches the root through "
+            "symbolic links as in stream `git` (ancestor link, the root a link, link to a link, relative link; absolute / relative): also "
+            "there the class made by Project.from_directory answers like VCSStrategyGit(root), and Project.all_files = the covered files "
+            "under `git check-ignore`'s verdicts and the registered submodule paths; non-trivial = something ignored and something reached")
     IGN = ["*.o", "build/", "/docs/gen.txt", "!keep.o", "tmp*", "src/*.log", "**/cache/", "*.tmp", "sp ace*", "é*", "/lib/"]
     NAMES = ["a.c", "b.o", "keep.o", "gen.txt", "tmp1", "x.log", "y.tmp", "README", "z.py", "sp ace.c", "sp ace.o", "é.o",
              "é.txt", "nl\nx.o", "nl\nx.c", "q\"x.o"]
@@ -573,6 +578,11 @@ class VcsGitStream(Stream):
             yield {"seed": rng.randrange(1 << 30), "flags": rng.choice(["00", "10"]),
                    "rootat": rng.choice(["top", "top", "subdir"]), "cwd": rng.choice(["root", "root", "top", "outside"]),
                    "rootsp": rng.choice(["abs", "rel"])}
+        # further submodules (plan_submodules) and the root reached through symbolic links (linked_root)
+        for i in range(200 if tier == "thorough" else 26):
+            yield {"seed": rng.randrange(1 << 30), "flags": rng.choice(["00", "00", "10"]),
+                   "rootat": rng.choice(["top", "top", "subdir"]), "cwd": rng.choice(["root", "top", "outside"]),
+                   "rootsp": rng.choice(["abs", "rel"]), "xsubs": 1, "via": rng.choice(VIAS)}
 
     def _gen(self, case):
         import random
@@ -630,6 +640,8 @@ class VcsGitStream(Stream):
                 with open(os.path.join(root, ".gitmodules"), "w") as fp:
                     fp.write('[submodule "mod"]\n\tpath = mod\n\turl = https://example.com/mod.git\n')
             _git(["init", "-q"], repo)
+            xsubs = build_submodules(top, root, plan_submodules(case["seed"]) if case.get("xsubs") else [], real_ok=root == repo)
+            subs = subs + xsubs
             allf = []
             for dp, dn, fn in os.walk(repo):
                 dn[:] = [d for d in dn if d != ".git"]
@@ -643,7 +655,8 @@ class VcsGitStream(Stream):
                 elif r < 0.6:
                     _git(["add", "-f", "--", f], repo)
             cwd = {"root": root, "top": repo, "outside": top}[case["cwd"]]
-            rootsp = root if case["rootsp"] == "abs" else os.path.relpath(root, cwd)
+            rootsp = linked_root(top, root, case.get("via", "plain"))
+            rootsp = rootsp if case["rootsp"] == "abs" else os.path.relpath(rootsp, cwd)
             # every path below the root (directories and files), top-down
             paths, kinds = [], {}
             for dp, dn, fn in os.walk(root):
@@ -667,6 +680,9 @@ class VcsGitStream(Stream):
                     answers = [("1" if st.is_ignored(q) else "0") + ("1" if st.is_submodule(q) else "0") for q in spelled]
                     project = Project.from_directory(rootsp, include_submodules=flags[0] == "1", include_meson_subprojects=flags[1] == "1")
                     strategy_name = type(project.vcs_strategy).__name__
+                    # the strategy object the project made for itself answers like the one made here
+                    panswers = [("1" if project.vcs_strategy.is_ignored(q) else "0") + ("1" if project.vcs_strategy.is_submodule(q) else "0")
+                                for q in spelled]
                     got = sorted(os.path.relpath(str(p), rootsp) for p in project.all_files())
             finally:
                 logging.disable(logging.NOTSET)
@@ -678,8 +694,12 @@ class VcsGitStream(Stream):
             # the raw outputs, captured from the real commands started in the root, with the user's configuration
             raw1 = _git(["ls-files", "--exclude-standard", "--ignored", "--others", "--directory", "--no-empty-directory", "-z"],
                         root, global_config=gconf).stdout.decode("utf-8")
-            raw2 = _git(["config", "-z", "--file", ".gitmodules", "--get-regexp", r"\.path$"], root, global_config=gconf).stdout.decode("utf-8")
-            r = _git(["check-ignore", "--stdin", "-z"], root, input=("\0".join(paths)).encode(), global_config=gconf)
+            raw2 = _git(["config", "-z", "--file", ".gitmodules", "--get-regexp", GITMODULES_KEY_PATTERN], root, global_config=gconf).stdout.decode("utf-8")
+            # (Git refuses to answer for a path inside a submodule of its index; the generated submodules hold no name an ignore pattern matches)
+            asked = [x for x in paths if not below_any(x, xsubs)]
+            r = _git(["check-ignore", "--stdin", "-z"], root, input=("\0".join(asked)).encode(), global_config=gconf)
+            if r.returncode not in (0, 1):
+                raise RuntimeError("git check-ignore failed: %r" % r.stderr[-200:])
             ignored = sorted(x for x in r.stdout.decode().split("\0") if x)
             tracked = sorted(x for x in _git(["ls-files", "-z"], root).stdout.decode().split("\0") if x)
 
@@ -697,7 +717,7 @@ class VcsGitStream(Stream):
             facts = {"cwd": cwd, "root": rootsp, "raw1": raw1, "raw2": raw2, "queries": spelled, "disk": read(root),
                      "rootname": Path(rootsp).name}
             self._facts[json.dumps(case, sort_keys=True)] = facts
-            return json.dumps({"answers": " ".join(answers), "paths": paths, "kinds": [kinds[p] for p in paths], "ignored": ignored,
+            return json.dumps({"answers": " ".join(answers), "panswers": " ".join(panswers), "paths": paths, "kinds": [kinds[p] for p in paths], "ignored": ignored,
                                "tracked": tracked, "subs": subs, "got": got, "strategy": strategy_name, "facts": facts})
 
     def model_lines(self, case):
@@ -740,6 +760,14 @@ class VcsGitStream(Stream):
             return "vcsgit-strategy: a directory inside a Git repository (root %r, process in %r) gets %s" % (r["facts"]["root"], r["facts"]["cwd"], r["strategy"])
         answers = dict(zip(r["paths"], r["answers"].split(" ") if r["answers"] else []))
         ign = set(r["ignored"])
+        if r.get("panswers", r["answers"]) != r["answers"]:
+            pa = dict(zip(r["paths"], r["panswers"].split(" ")))
+            d = [p for p in r["paths"] if pa[p] != answers[p]]
+            # judged below through the files Project.all_files yields; said here when nothing else fails
+            differs = ("vcsgit-project-strategy-differs: root %r, process in %r: the strategy object of Project.from_directory answers %s "
+                       "for %r, VCSStrategyGit(root) answers %s (is_ignored, is_submodule)" % (r["facts"]["root"], r["facts"]["cwd"], pa[d[0]], d[0], answers[d[0]]))
+        else:
+            differs = None
         by_class = self._reach(r["paths"], r["kinds"], lambda p: answers[p][0] == "1")
         by_git = self._reach(r["paths"], r["kinds"], lambda p: p in ign)
         if by_class != by_git:
@@ -754,10 +782,23 @@ class VcsGitStream(Stream):
             if (answers[p][1] == "1") != want:
                 return "vcsgit-submodule-differs: root %r, process in %r: is_submodule(%r) is %s, .gitmodules lists %s" % (
                     r["facts"]["root"], r["facts"]["cwd"], p, answers[p][1] == "1", r["subs"])
-        return None
+        # the files the project examines = the covered files under Git's own verdicts and the registered submodules
+        from c03 import spec_covered
+
+        def fix(ch):
+            return [(n, ("d", fix(node[1])) if node[0] == "d" else tuple(node)) for n, node in ch]
+        want = sorted(spec_covered(fix(r["facts"]["disk"]), case["flags"], frozenset(r["ignored"]), frozenset(r["subs"])))
+        if r["got"] != want:
+            a, b = set(r["got"]), set(want)
+            self.__dict__.setdefault("_seen", {})[json.dumps(case, sort_keys=True)] = (sorted(a - b), sorted(b - a), r)
+            return ("vcsgit-covered-set-differs: root %r, process in %r, submodules %s%s: Project.all_files examines %s although excluded / ignored, "
+                    "skips the covered %s" % (r["facts"]["root"], r["facts"]["cwd"], r["subs"], "" if case["flags"][0] == "0" else " (included)",
+                                              sorted(a - b), sorted(b - a)))
+        return differs
 
     def classify(self, case, failure):
-        if failure.startswith("vcsgit-reach-differs") and failure.rstrip().endswith("misses [] which it does not"):
+        if (failure.startswith("vcsgit-reach-differs") and failure.rstrip().endswith("misses [] which it does not")) or (
+                failure.startswith("vcsgit-covered-set-differs") and failure.rstrip().endswith("skips the covered []")):
             if json.dumps(case, sort_keys=True) not in getattr(self, "_seen", {}):
                 return None
             extra, _, r = self._seen[json.dumps(case, sort_keys=True)]
@@ -776,7 +817,8 @@ class VcsGitStream(Stream):
     def show(self, case):
         t, ign_root, ign_sub, uign, _ = self._gen(case)
         return {"tree": t, "gitignore": ign_root, "src/.gitignore": ign_sub, "user_ignore_file": uign,
-                **{k: case[k] for k in ("flags", "rootat", "cwd", "rootsp")}}
+                **{k: case[k] for k in ("flags", "rootat", "cwd", "rootsp", "via") if k in case},
+                **({"further_submodules [name, path, kind]": plan_submodules(case["seed"])} if case.get("xsubs") else {})}
 
 
 # --------------------------------------------------------------------------
